@@ -35,6 +35,14 @@
 //!    whose per-predicate limit sits around the single needs: sequential vs parallel
 //!    estimation (all schedules), estimation Ok => verification Ok, seq vs par check.
 //!
+//! Findings on the unchanged tree (all in space 5, all-true predicates that do not fit the
+//! gas limits): estimation ignores the predicate's run result, so an out-of-gas run is
+//! "estimated" as Ok and the estimated tx then fails verification
+//! (`C20:estimate-ok-verify-rejects:{sequential,parallel}:OutOfGas`), and the sequential
+//! path (shrinking global allowance) says Ok where the parallel path (min(per-predicate,
+//! per-tx) for everyone) says TransactionExceedsTotalGasAllowance
+//! (`C20:seq-vs-par:estimate-verdict:gas-limit`).
+//!
 //! Don't-cares: which error is reported; the state of a tx after a failed estimation;
 //! whether a tx that is all-true/exact is accepted (only stated via estimate=>verify);
 //! estimation "succeeding" on predicates that are not true or have a wrong owner
@@ -888,7 +896,7 @@ fn shape(tx: &Script) -> String {
     format!("{ins:?}{outs:?}{wits:?}")
 }
 
-fn sweep_eval(k: usize, byte: usize, bit: u8, env: &Env, ctx: &Ctx, acc: &mut Acc) {
+fn sweep_eval(k: usize, byte: usize, bit: u8, env: &Env, _ctx: &Ctx, acc: &mut Acc) {
     let tx = sweep_tx(k, env);
     let bytes = Transaction::Script(tx.clone()).to_bytes();
     let mut m = bytes.clone();
@@ -1426,11 +1434,17 @@ fn sched_eval(roles: &[u8], env: &Env, ctx: &Ctx, acc: &mut Acc) {
             return
         }
     }
-    // sanity of the family itself (by construction), reported as a violation of its own class
-    if seq.is_ok() != expect_ok {
+    // the roles fix the expected verdict by construction (gas = sequential estimate, then adjusted)
+    if seq.is_ok() && !expect_ok {
         acc.viol(
-            "C20:sched:sequential-verdict-vs-role-construction",
-            format!("sequential check_predicates gave {} but the roles say accepted={expect_ok}: {base}", seq.label()),
+            "C20:sched:accepted-unauthorized",
+            format!("sequential check_predicates gave {} although a role makes the tx unauthorized: {base}", seq.label()),
+            case.clone(),
+        );
+    } else if !seq.is_ok() && expect_ok {
+        acc.viol(
+            "C20:sched:estimate-ok-verify-rejects",
+            format!("every role is a true predicate with estimated gas, but sequential check_predicates gave {}: {base}", seq.label()),
             case.clone(),
         );
     }
@@ -1638,6 +1652,7 @@ fn limit_grid(need: &[u64]) -> (Vec<u64>, Vec<u64>) {
     }
     pp.sort();
     pp.dedup();
+    pp.reverse(); // generous per-predicate limit first: the first counterexample is the plainest one
     (t, pp)
 }
 
